@@ -22,6 +22,11 @@ impl Graveyard {
         self.connections.remove(id)
     }
 
+    /// Look at the saved state of a connection without taking it out
+    pub fn get(&self, id: &str) -> Option<&SavedState> {
+        self.connections.get(id)
+    }
+
     /// Save connection tracker
     pub fn save_state(
         &mut self,
